@@ -9,6 +9,7 @@ var commands = map[string]func([]string){
 	"c01": runC01,
 	"c04": runC04,
 	"c05": runC05,
+	"c06": runC06,
 	"c07": runC07,
 	"c10": runC10,
 	"c11": runC11,
